@@ -60,8 +60,8 @@ def run_batch(binary, lines, timeout=900, max_restarts=40):
                     cur.events.append(l)
             else:
                 cur.events.append(l)
-        if cur is not None and (p.returncode != 0 or not ended):
-            # the process died inside run k
+        if cur is not None and not ended:
+            # the process died inside run k (crash, sanitizer abort, library assertion)
             if cur.status is None:
                 cur.status = "abort"
                 err = p.stderr
@@ -69,6 +69,7 @@ def run_batch(binary, lines, timeout=900, max_restarts=40):
                 k += 1
             restarts += 1
         elif k < len(runs) and p.returncode != 0:
+            # the process exited right after a completed run (deadlock / hang exit): resume with the next run
             restarts += 1
         elif k < len(runs):
             # process ended cleanly but lines remain (should not happen)
